@@ -335,7 +335,11 @@ class Balancer:
         if all(vals):
             raise ClaripyBalancerUnsatError
         if vals.count(False) == 1:
-            return Balancer._unpack_truisms(c.args[vals.index(False)])
+            # the only disjunct that can hold must hold: it is a truism itself, together with whatever it unpacks to
+            # (returning only the latter left a plain comparison with nothing, and the Or was then processed as if
+            # it were a comparison)
+            live = c.args[vals.index(False)]
+            return {live} | Balancer._unpack_truisms(live)
         return set()
 
     #
